@@ -206,7 +206,8 @@ class MinFlowDecompCycles(walkmodel.AbstractWalkModelDiGraph):
         if self.optimization_options.get("optimize_with_guessed_weights", MinFlowDecompCycles.optimize_with_given_weights):            
             self._solve_with_given_weights()
 
-        for i in range(self.get_lowerbound_k(), self.G.number_of_edges() + 1):  # the optimum can be as large as the number of edges
+        # the optimum can be as large as the number of edges, plus one walk per subset constraint
+        for i in range(self.get_lowerbound_k(), self.G.number_of_edges() + len(self.subset_constraints or []) + 1):
             utils.logger.info(f"{__name__}: solving with k = {i}")
             fd_model = None
             # Checking if we have already found a solution with the same number of walks
